@@ -71,6 +71,7 @@ type Hist struct {
 	erc20Own  map[common.Address]int
 	emitters  map[common.Address]bool // user-deployed batch tokens (emitterInit): one call, several Transfer events
 	emitN     uint64
+	burst     int // > 0: fill the CSR registry up to this many NFTs in bursts (more than one default page of the query servers)
 	regERC20  map[common.Address]bool
 	pending   []pendingTx
 	usedSeq   map[int]uint64
@@ -578,6 +579,13 @@ func (h *Hist) NextBlock() (int64, time.Time, []TxSpec) {
 	}
 	ctx := h.ref.QueryCtx()
 	h.votes(ctx)
+	if h.burst > 0 && h.height >= 3 && h.genBurst(ctx) {
+		var out []TxSpec
+		for _, p := range h.pending {
+			out = append(out, p.spec)
+		}
+		return h.height, h.now, out
+	}
 	n := h.r.Intn(h.txPerBlk + 1)
 	if h.r.Chance(1, 10) {
 		n = 0
@@ -597,6 +605,45 @@ func (h *Hist) NextBlock() (int64, time.Time, []TxSpec) {
 		out = append(out, p.spec)
 	}
 	return h.height, h.now, out
+}
+
+// genBurst: a block full of CSR contract deployments, or of registrations of the contracts deployed so far (each creates an
+// NFT), until the registry holds h.burst NFTs.
+func (h *Hist) genBurst(ctx sdk.Context) bool {
+	a := h.ref.App
+	ts, ok := a.CSRKeeper.GetTurnstile(ctx)
+	if !ok || !a.CSRKeeper.GetParams(ctx).EnableCsr {
+		return false
+	}
+	if len(a.CSRKeeper.GetAllCSRs(ctx)) >= h.burst {
+		h.burst = 0
+		return false
+	}
+	n := len(h.cfg.Addrs)
+	if len(h.csrCtrs) < 30 {
+		ctor, _ := csrSmartContract.ABI.Pack("", ts)
+		for x := 0; x < 36; x++ {
+			i := x % n
+			_, seq := h.acc(ctx, i)
+			addr := crypto.CreateAddress(h.ethAddr(i), seq)
+			h.ethTx(ctx, "eth-deploy-csr", i, nil, nil, 1_000_000, append(append([]byte{}, csrSmartContract.Bin...), ctor...), func() { h.csrCtrs = append(h.csrCtrs, addr) })
+		}
+		return true
+	}
+	for x, c := range append([]common.Address{}, h.csrCtrs...) {
+		c := c
+		data, _ := csrSmartContract.ABI.Pack("register", h.ethAddr(x%n))
+		h.ethTx(ctx, "eth-csr-register", x%n, &c, nil, 1_000_000, data, func() {
+			for y, cc := range h.csrCtrs {
+				if cc == c {
+					h.csrCtrs = append(h.csrCtrs[:y], h.csrCtrs[y+1:]...)
+					break
+				}
+			}
+			h.csrRegd = append(h.csrRegd, c)
+		})
+	}
+	return true
 }
 
 // Observe records the outcome of every transaction of the block (statistics + generator knowledge).
